@@ -61,6 +61,15 @@ pub fn replay_mapped(case: &Value, tally: &mut Tally) {
             // the view at the record's start: content as loaded, offset, length; offset + length = next record's offset
             let exp = json!([true, offsets[k], sizes[k]]);
             tally.check(hkey(&[ckey, 1, k as u64]), true, &|| ctx(k, "view at the record start: [content equals the value, map_offset, map_len]", offsets[k]), &exp, &view(&map, v, offsets[k]));
+            // a byte vector and a string have the same layout: a string view over a byte vector's record succeeds exactly when
+            // loading a String from those bytes does (valid UTF-8), with the same content
+            if let Val::Bytes(x) = v {
+                use simple_sds::serialize::Serialize;
+                let loaded = String::load(&mut std::io::Cursor::new(&buf[8 * offsets[k]..])).ok();
+                let got = guarded_val(|| match MappedStr::new(&map, offsets[k]) { Ok(m) => json!([true, m.to_string() == String::from_utf8_lossy(x), m.map_len()]), Err(_) => json!("err") });
+                let exp = match &loaded { Some(_) => json!([true, true, sizes[k]]), None => json!("err") };
+                tally.check(hkey(&[ckey, 5, k as u64]), true, &|| ctx(k, "string view over a byte vector's record: as String::load of the same bytes", offsets[k]), &exp, &got);
+            }
             // offsets at or beyond the end of the file
             for off in [total, total + 1, 2 * total + 3, 1usize << 63, usize::MAX - 1, usize::MAX] {
                 tally.check(hkey(&[ckey, 2, k as u64, off as u64]), true, &|| ctx(k, "view requested at an offset outside the file", off), &json!("err"), &view(&map, v, off));
